@@ -32,6 +32,7 @@ func (p *Prog) verifyFunc(fn *ssa.Function, ct *Contract) (res *FuncResult) {
 			panic(r)
 		}
 	}()
+	vc.labels = historyLabels(ct)
 	fr := vc.newFrame(fn, 0)
 	fr.top = true
 	fr.contract = ct
